@@ -11,6 +11,8 @@ CONSTANTS
   MaxDials = 1
   MaxCalls = 1
   MaxStore = 0
+  CtxMode = "ignored"
+  MaxStalls = 0
   Tails = TRUE
 CONSTRAINT Decorated
 INVARIANTS EmitDecorated RunAgrees
